@@ -33,6 +33,7 @@ type World struct {
 	SSAS     float64
 	Promoted int      // captured locals promoted to registers (mem2reg.go)
 	Renamed  []string // unexported helpers recognised under a new name (renames.go)
+	selFn    *ssa.Function
 	NFuncs   int
 	funcsMod []*ssa.Function // all functions (incl. anonymous) of production module packages
 	cg       *CallGraph
